@@ -225,6 +225,52 @@ func roundTrip(s string, b bool) string {
 	return ""
 }
 
+// strIdentity: str of a string is the string itself, for EVERY string value
+// (Starlark strings are byte strings: slicing at a byte offset inside a
+// multi-byte character, or a host-constructed value, gives ill-formed UTF-8),
+// through every entry point that converts with str: the builtin called from Go,
+// str(x), "%s" % x, "{}".format(x) and string concatenation in the interpreter,
+// and on slices computed by the interpreter itself.
+func strIdentity(r *hx.Rand, n int, fail func(entry, s, got string)) (checked int) {
+	var pool []string
+	pool = append(pool, badChunks...)
+	pool = append(pool, stringClasses(true)...)
+	for _, c := range runePool {
+		pool = append(pool, string(c), "a"+string(c)+"b")
+	}
+	for i := 0; i < n; i++ {
+		pool = append(pool, randString(r, i%2 == 0))
+	}
+	// every byte-offset slice of some multi-byte strings
+	for _, w := range []string{"héllo", "日本語", "a\U0001F600b", " xé", "né\xffe"} {
+		for i := 0; i <= len(w); i++ {
+			for j := i; j <= len(w); j++ {
+				pool = append(pool, w[i:j])
+			}
+		}
+	}
+	prog := "r1 = str(x)\nr2 = \"%s\" % (x,)\nr3 = \"{}\".format(x)\nr4 = \"\" + x\nr5 = \"\".join([x])\nr6 = str(w[i:j])\nr7 = w[i:j]\n"
+	for _, s := range pool {
+		checked++
+		if got, err := strOf(starlark.String(s)); err != nil || got != s {
+			fail("builtin", s, got)
+		}
+		th := &starlark.Thread{Name: "str"}
+		env := starlark.StringDict{"x": starlark.String(s), "w": starlark.String("zz" + s + "é"), "i": starlark.MakeInt(2), "j": starlark.MakeInt(2 + len(s))}
+		g, err := starlark.ExecFile(th, "str.star", prog, env)
+		if err != nil {
+			fail("exec", s, err.Error())
+			continue
+		}
+		for _, name := range []string{"r1", "r2", "r3", "r4", "r5", "r6", "r7"} {
+			if got, ok := g[name].(starlark.String); !ok || string(got) != s {
+				fail(map[string]string{"r1": "str(x)", "r2": "%s", "r3": "format", "r4": "concat", "r5": "join", "r6": "str(slice)", "r7": "slice"}[name], s, string(got))
+			}
+		}
+	}
+	return checked
+}
+
 func classOfString(s string) string {
 	switch {
 	case s == "":
@@ -369,6 +415,13 @@ func cmdStrings(args []string) {
 			fail("random", s, b, w)
 		}
 	}
+	nstr := strIdentity(r, *n, func(entry, s, got string) {
+		fails++
+		if fails <= 50 {
+			hx.Emit(M{"kind": "str_fail", "entry": entry, "s": hx_(s), "got": hx_(got), "class": classOfString(s)})
+		}
+	})
+	dist["str-identity"] = nstr
 	hx.Emit(M{"kind": "summary", "dist": dist, "rt_fails": fails, "swept_code_points": swept, "direct_round_trips": vol, "non_string_tokens": nonString})
 }
 
@@ -1386,6 +1439,15 @@ func cmdReplay() {
 		hx.Emit(M{"kind": "quote", "s": hx_(s), "b": b, "q": hx_(syntax.Quote(s, b)), "print": printable(s), "class": classOfString(s)})
 		if w := roundTrip(s, b); w != "" {
 			hx.Emit(M{"kind": "rt_fail", "sub": "replay", "s": hx_(s), "b": b, "what": w, "class": classOfString(s)})
+		}
+	case "str_fail":
+		one := unhex("s")
+		strIdentityOne := func(entry, s, got string) {
+			hx.Emit(M{"kind": "str_fail", "entry": entry, "s": hx_(s), "got": hx_(got), "class": classOfString(s)})
+		}
+		_ = one
+		if got, err := strOf(starlark.String(one)); err != nil || got != one {
+			strIdentityOne("builtin", one, got)
 		}
 	case "scan":
 		src := unhex("src")
